@@ -511,3 +511,42 @@ def expand_ifexp(e, limit=16):
         if len(out) >= limit:
             break
     return out
+
+
+def returned_for_class(cls, name, depth=0):
+    """the expression `name()` returns for an instance of exactly `cls` (a one-return method), with calls of other one-return methods on self - looked up in the method
+    resolution order of `cls`, so an override in `cls` counts - written out; None if it is not of that shape"""
+    from ..termform import subst
+
+    m = cls.find_method(name)
+    if m is None or not hasattr(m, "node") or depth > 3:
+        return None
+    node = m.node
+    rets = [r for r in ast.walk(node) if isinstance(r, ast.Return)]
+    if len(rets) != 1 or rets[0].value is None:
+        return None
+    env = {}
+    for st in node.body:
+        if isinstance(st, ast.Return):
+            break
+        if isinstance(st, ast.Assign) and len(st.targets) == 1 and isinstance(st.targets[0], ast.Name):
+            env[st.targets[0].id] = subst(st.value, env)
+        elif not (isinstance(st, ast.Expr) and isinstance(st.value, ast.Constant)):
+            return None
+    e = subst(rets[0].value, env)
+
+    class T(ast.NodeTransformer):
+        def visit_Call(self, c):
+            self.generic_visit(c)
+            if isinstance(c.func, ast.Attribute) and isinstance(c.func.value, ast.Name) and c.func.value.id == "self" and not c.keywords:
+                h = cls.find_method(c.func.attr)
+                if h is not None and hasattr(h, "node") and c.func.attr.startswith("_"):
+                    inner = returned_for_class(cls, c.func.attr, depth + 1)
+                    params = [a.arg for a in h.node.args.args][1:]
+                    if inner is not None and len(params) == len(c.args):
+                        return subst(inner, dict(zip(params, c.args)))
+            return c
+
+    import copy
+
+    return T().visit(copy.deepcopy(e))
